@@ -4,6 +4,7 @@ package main
 import (
 	"flag"
 	"fmt"
+	"golang.org/x/tools/go/ssa"
 	"os"
 	"runtime/debug"
 	"strconv"
@@ -123,7 +124,11 @@ func dumpLeaves(repo, name string) {
 		if obj == nil || load.FuncName(obj) != name {
 			continue
 		}
-		ls, err := ir.Leaves(fn, ir.LeafOptions{Forward: true, Effects: true, MaxPaths: 100000})
+		inl := func(c *ssa.Function) bool {
+			o, _ := c.Object().(*types.Func)
+			return o != nil && !o.Exported() && c.Pkg != nil && load.IsLib(c.Pkg.Pkg.Path()) && len(c.Blocks) > 0 && os.Getenv("NOINLINE") == ""
+		}
+		ls, err := ir.Leaves(fn, ir.LeafOptions{Forward: true, Effects: true, MaxPaths: 100000, Inline: inl})
 		if err != nil {
 			fmt.Println("error:", err)
 			return
